@@ -30,7 +30,10 @@ def run_tlc(module, cfg_text, wd, env=None, workers=1, extra=(), timeout=3600, h
     e = dict(os.environ)
     if env:
         e.update(env)
-    opts = ["-XX:+UseParallelGC", "-Xmx" + heap, "-Xss16m"]
+    if workers == 1:   # sharded runs: many JVMs side by side, keep each one lean
+        opts = ["-XX:+UseSerialGC", "-XX:CICompilerCount=2", "-Xmx" + heap, "-Xss16m"]
+    else:
+        opts = ["-XX:+UseParallelGC", "-Xmx" + heap, "-Xss16m"]
     if deque:
         opts.append("-Dtlc2.tool.queue.IStateQueue=StateDeque")
     cmd = ["java"] + opts + ["-cp", JAR, "tlc2.TLC", "-workers", str(workers), "-metadir", meta,
